@@ -322,3 +322,16 @@ func (x *Ctx) implementations(ifaceRel, iface, method string, rels ...string) []
 	}
 	return out
 }
+
+// lookupIntConst resolves a package-level integer constant.
+func lookupIntConst(x *Ctx, rel, name string) (int64, bool) {
+	pk := x.P.ByRel[rel]
+	if pk == nil {
+		return 0, false
+	}
+	c, ok := pk.Types.Scope().Lookup(name).(*types.Const)
+	if !ok {
+		return 0, false
+	}
+	return constant.Int64Val(constant.ToInt(c.Val()))
+}
